@@ -797,7 +797,7 @@ func c08(cx *Ctx, r *ev.Report) {
 	r.Rules = append(r.Rules, ruleA, ruleF, ruleO, ruleW)
 	r.Assumptions = append(r.Assumptions, commonAssumptions...)
 	r.Trusted = []string{"golang.org/x/tools/go/ssa v0.29.0 (CFG of Run)", "verif/internal/checks/c08.go (event recognisers, product exploration)", "C01/C06 for what one Step does"}
-	r.Explanation = "Run's control structure is decided by language inclusion of its CFG (projected on recognised events: the entry store HALT=false, the cancellation test, the static call of (*CPU).Step on the receiver, the comma-ok lookup of CPU.PC in CPU.BreakPoints, the test of CPU.HALT, and the classified return values) in the regular specification; this yields at least one Step before any non-cancel return, stopping at exactly the first Step after which a stop condition holds, breakpoint priority and the discarded stale indication. The loads feeding the tests are executed after the Step of the same iteration and Run never touches CPU.Interrupt, so requests raised by callbacks are seen by the next Step exactly as a caller of Step would see them. What a Step does is C01/C06; only arm 76 (and its DD/FD mirrors) sets the indication and leaves PC on the opcode."
+	r.Explanation = "Run is decided on a value summary of one iteration of its loop (" + fmt.Sprint(r.Analysed["run_decided_by"]) + "): the body is interpreted once with helpers, deferred functions and closures in line, (*CPU).Step opaque and replacing every CPU field by a fresh value, the CPU fields the body changes generalised at the loop header (so the iteration stands for every iteration, also for loops whose condition reads the CPU), and each observation of the cancellation state a fresh atom. The conditions 'this iteration Steps', 'returns ErrBreakPoint / nil / the context's error' and 'goes round again' - composed with the tests the next loop header makes - are compared as boolean functions with the stopping rule: no Step iff cancelled iff the context's error is returned; after the Step ErrBreakPoint iff PC as the Step left it is in BreakPoints, else nil iff the Step executed HALT, else the next iteration; nothing else is returned; no return before the first Step other than cancellation; Step runs on the receiver as the previous Step (or the caller) left it, and the CPU at the back edge and at every return is as Step left it (only HALT:=false before the loop). When the summary is undecided the CFG automaton of DESIGN.md 5/C08 is used instead. What a Step does is C01/C06; only arm 76 (and its DD/FD mirrors) sets the indication and leaves PC on the opcode (HALT-FIELD over all 1786 arms)."
 }
 
 func isNilConst(v ssa.Value) bool {
